@@ -141,6 +141,7 @@ def rules(ctx: Ctx) -> None:
     from .common import import_rules as _imp
 
     _imp(ctx, "C03", {"R03.3": "R06.5"})
+    _imp(ctx, "C03", {"R03.2": "R06.5"}, key_filter=lambda o: o.key == "fold:one-pass-over-the-statements")
     _imp(ctx, "C11", {"R11.3": "R06.6"})
     # R06.7: the table-level answer the column paths are compared with: every table with lineage is source, intermediate or target
     # (a path may end in an intermediate table only if the intermediate set is not emptied by unrelated tags) (= R03.1)
